@@ -42,6 +42,14 @@ var (
 // TmpRoot returns this process's scratch directory (removed by Cleanup).
 func TmpRoot() string {
 	tmpOnce.Do(func() {
+		// scratch directories of runs that were killed hard are swept after 3 hours
+		if old, _ := filepath.Glob(filepath.Join(os.TempDir(), "vcheck-*")); len(old) > 0 {
+			for _, o := range old {
+				if fi, err := os.Stat(o); err == nil && time.Since(fi.ModTime()) > 3*time.Hour {
+					os.RemoveAll(o)
+				}
+			}
+		}
 		d, err := os.MkdirTemp("", "vcheck-")
 		if err != nil {
 			panic(err)
